@@ -17,6 +17,7 @@ and shipped as the boolean `tri`; for p in {1, 'inf'} TLC checks it exactly.
 import random, os, json, math, itertools, multiprocessing as mp
 from fractions import Fraction as F
 from ..common import Result, OUT, scratch, run_tlc, Machinery, tlc_error_excerpt, rat, quiet, load_votekit
+from ..common import fork_pool
 from .. import domains as D
 from ..calltrace import judge_calls
 
@@ -369,7 +370,7 @@ def run(tier, seed, replay=None):
             res.violation("spec:MC_Metrics:%s" % r["violated"], "the metric / ballot-graph definitions violate %s" % r["violated"], {})
         inputs = lp_corpus(tier, seed) + graph_corpus(tier) + weights_corpus(tier, seed)
     res.evaluations = len(inputs)
-    with mp.get_context("fork").Pool(16) as pool:
+    with fork_pool(16) as pool:
         traces = list(pool.imap_unordered(work, inputs, chunksize=8))
     traces.sort(key=lambda t: json.dumps({k: v for k, v in t.items() if not k.startswith("_")}, sort_keys=True))
     counts = {}
